@@ -1,11 +1,11 @@
 package engines
 
 import (
-	"time"
 	"fmt"
 	"sort"
 	"strconv"
 	"strings"
+	"time"
 	"unicode/utf8"
 
 	"github.com/bufbuild/protocompile/experimental/parser"
@@ -229,6 +229,9 @@ func (xlexEngine) Class(op, ans string) string {
 // ---------------------------------------------------------------- xparse
 
 type xpObs struct {
+	// shared: what differs when the same input is parsed into a report that already holds the
+	// diagnostics of another (broken) file; "" when nothing does
+	shared   string
 	ok       bool
 	levels   string
 	badSpans int
@@ -285,6 +288,34 @@ func xpObserve1(in []byte) (o xpObs) {
 	if len(lv) > 0 {
 		o.levels = strings.Join(lv, ",")
 	}
+	// Parse appends to the caller's report; a report may be shared by several Parse calls. What
+	// this call reports (ok, and the diagnostics it appends) must not depend on what the report
+	// held before.
+	r2 := &report.Report{}
+	parser.Parse("prior.proto", source.NewFile("prior.proto", "message {\n"), r2)
+	n0 := len(r2.Diagnostics)
+	priorErr := false
+	for i := range r2.Diagnostics {
+		if r2.Diagnostics[i].Level() <= report.Error {
+			priorErr = true
+		}
+	}
+	if priorErr {
+		_, ok2 := parser.Parse(xlexPath, source.NewFile(xlexPath, string(in)), r2)
+		var lv2 []string
+		if len(r2.Diagnostics) >= n0 {
+			for i := n0; i < len(r2.Diagnostics); i++ {
+				lv2 = append(lv2, strconv.Itoa(int(r2.Diagnostics[i].Level())))
+			}
+		}
+		l2 := "-"
+		if len(lv2) > 0 {
+			l2 = strings.Join(lv2, ",")
+		}
+		if ok2 != ok || l2 != o.levels {
+			o.shared = fmt.Sprintf("ok=%v:levels=%s", ok2, l2)
+		}
+	}
 	return o
 }
 
@@ -313,6 +344,9 @@ func (xparseEngine) Exec(op string) string {
 	obs := "same"
 	if w[3] != xpConsts() || w[4] != o.levels || w[5] != strconv.Itoa(o.badSpans) {
 		obs = "differ:" + xpConsts() + ":" + o.levels + ":" + strconv.Itoa(o.badSpans)
+	}
+	if obs == "same" && o.shared != "" {
+		obs = "shared-report:" + o.shared
 	}
 	return fmt.Sprintf("ok=%v lexice=%d obs=%s", o.ok, o.lexICE, obs)
 }
